@@ -153,7 +153,7 @@ class Corr:
             prog = c19lib.program_lines(index, lines, pno)[:k + 1]
             self.oob[prog[-1].split()[0] if "err oob" in m else "dump-after-" + prog[-1].split()[0]] += 1
             key = "convert-ctor-from-masked" if any(l.startswith("convert") for l in prog) else "oob:" + prog[-1].split()[0]
-            self.note_key(key, prog, "model: " + m, r, cls)
+            self.note_key(key, prog, "model: " + m, r, cls, "corr:%s:%s:model=real" % (name, cls))
         if spec:
             rc, sp = c19lib.run_spec(text)
             dev, al, n2 = c19lib.compare_spec_real(index, lines, sp, real)
@@ -162,10 +162,14 @@ class Corr:
                        {"lines": n2, "deviations": len(dev), "outside_quantifier(aliased/backward-2d)": al})
             for (pno, kind, k, a, b) in dev:
                 prog = c19lib.program_lines(index, lines, pno)[:k + 1]
-                self.note_key(c19lib.classify(prog, k, a, b), prog, a, b, cls)
+                self.note_key(c19lib.classify(prog, k, a, b), prog, a, b, cls, "corr:%s:%s:real=python-list" % (name, cls))
         return index, lines, model_lines, real
 
-    def note_key(self, key, prog, a, b, cls):
+    def note_key(self, key, prog, a, b, cls, obl=None):
+        # obligations (campaign x class) on which this finding occurred: lib.finish ties them to the key
+        self.key_obls = getattr(self, "key_obls", {})
+        if obl:
+            self.key_obls.setdefault(key, set()).add(obl)
         cur = self.keys.get(key)
         if cur is None:
             self.keys[key] = [prog, a, b, {cls}]
@@ -701,6 +705,8 @@ def run(chk):
         for c, sub in exr.map(typed_run, typed):
             for k, vv in sub.keys.items():
                 co.note_key(k, vv[0], vv[1], vv[2], c)
+                for ob in getattr(sub, "key_obls", {}).get(k, []):
+                    co.note_key(k, vv[0], vv[1], vv[2], c, ob)
             for op, vv in sub.mism.items():
                 co.mism.setdefault(op, vv)
                 co.mism_classes.setdefault(op, set()).add(c)
@@ -742,7 +748,7 @@ def run(chk):
     for key, (prog, a, b, clss) in sorted(co.keys.items()):
         cls0 = "IntArray" if "IntArray" in clss else sorted(clss)[0]
         small = shrink_spec(prog, key, cls0) if cls0 == "IntArray" and not prog[-1].startswith(("d2", "m")) else prog
-        chk.fail("corr:real=python-list", key,
+        chk.fail(sorted(getattr(co, "key_obls", {}).get(key, [])) or "corr:real=python-list", key,
                  "%s: `%s` — expected %s, real module gives %s (%d classes)%s" % (
                      key, small[-1], a.split(";")[0], b.split(";")[0], len(clss), "  [fix: %s]" % FIX[key] if key in FIX else ""),
                  {"program": small, "python": pyrepro(small), "expected(list semantics)": a, "real": b, "classes": sorted(clss),
